@@ -2,6 +2,8 @@ CONSTANTS
   RecheckAfterTemplate = TRUE
   MaxAdded = 8
   Thresholds = {0}
+  IncomingSolved = {FALSE}
+  ResetIncoming = TRUE
   ConfStrict = FALSE
 SPECIFICATION TSpec
 POSTCONDITION Post
